@@ -178,7 +178,8 @@ def run_case(desc) -> Result:  # noqa: C901, PLR0911, PLR0912
                 n_topo >= 2 and desc["alignment"] == "axisangle" and any(sp_.denominator == 2 for sp_ in final_spins)
             ),
             dpd_several_topologies_spinful=bool(
-                n_topo >= 2 and desc["alignment"].startswith("dpd") and not spinless_final
+                n_topo >= 2 and desc["alignment"].startswith("dpd")
+                and (not spinless_final or next(iter(t0.initial_states.values())).particle.spin > 0)
             ),
             intensity=[complex(x) for x in i0[:3]], rotated=[complex(x) for x in i1[:3]],
         )
